@@ -59,7 +59,7 @@ Render(sc) ==
          \o (IF sc.flag THEN TS("csink t " \o ToString(ReadRest(Out(a)).off) \o "; ") ELSE <<>>)
          \o TS("}")
     [] sc.k = "par"  -> RenderC(a) \o TS(" | csink a 0 & ") \o RenderC(sc.ch[2])
-                           \o TS(" | csink b 0; wait")
+                           \o TS(" | csink b 0; wait; status 0")
 
 \* ---- the catalogue -------------------------------------------------------
 Q == Tier = "quick"
